@@ -62,6 +62,22 @@ pub fn files() -> BTreeMap<String, PathKind> {
     m
 }
 
+/// Files of the vocabulary whose content is fixed by hand and is known to translate to these targets. The
+/// expectations of this check are otherwise computed with xt's own library (the subject here is the command
+/// line, not the translation), so a library-level change that makes xt refuse one of these would move the
+/// model along with the binary; for these (file, target) pairs the outcome is pinned: exit status 0.
+pub const KNOWN_GOOD: &[(&str, &[&str])] = &[
+    ("good.json", &["json", "yaml", "msgpack"]),
+    ("good.yaml", &["json", "yaml", "msgpack", "toml"]),
+    ("good", &["json", "yaml", "msgpack", "toml"]),
+    ("nullval.json", &["json", "yaml", "msgpack"]),
+    ("big.yaml", &["json", "yaml"]),
+    ("matrix.m", &["json", "yaml", "msgpack"]),
+    ("caf\u{fffd}.json", &["json", "yaml", "msgpack", "toml"]),
+    ("note.t", &["json", "yaml", "msgpack", "toml"]),
+    ("bom", &["json", "yaml", "msgpack", "toml"]),
+];
+
 pub const STDINS: &[&[u8]] = &[b"{\"stdin\": 1}\n", b"{\"stdin\": [}", b""];
 
 thread_local! {
@@ -194,7 +210,15 @@ pub fn judge_delivery(argv: &[String], stdin: &[u8], cuts: &[usize], stdout: &St
             if *stdout == StdoutKind::Pty && *to == crate::fmts::Fmt::Msgpack {
                 acc.count("msgpack_to_terminal_cases");
             }
-            climodel::judge_run(&out, &exp).map_err(|e| format!("{e} [{}]", exp.why))
+            let pinned = from.is_none() && paths.len() == 1 && !(*stdout == StdoutKind::Pty && *to == crate::fmts::Fmt::Msgpack) && KNOWN_GOOD.iter().any(|(f, tos)| *f == paths[0] && tos.contains(&to.name()));
+            if pinned {
+                acc.count("runs_with_a_pinned_outcome");
+            }
+            if pinned && out.status != procmon::Status::Exit(0) {
+                Err(format!("a file known to translate to {} is refused: wait status {}", to.name(), out.status.show()))
+            } else {
+                climodel::judge_run(&out, &exp).map_err(|e| format!("{e} [{}]", exp.why))
+            }
         }
     };
     acc.count(&format!("stdout_{}", match stdout { StdoutKind::Pipe => "pipe", StdoutKind::File => "file", StdoutKind::Pty => "pty", StdoutKind::DevFull => "dev_full", _ => "other" }));
@@ -376,11 +400,11 @@ pub fn run(ctx: &Ctx) -> i32 {
         judge_delivery(&argv, bytes, &cuts, &StdoutKind::Pipe, acc);
     });
     acc.merge(b_acc);
-    let rule = format!("EVERY argument vector of length 0..={} over a {}-token vocabulary (-f/-t with every name and alias in attached, detached and '=' forms, repeated, missing value, invalid name; unknown short/long options; -h --help -V --version and clustered/valued forms; '--'; '-'; translatable / malformed / undetectable / unrepresentable / missing / directory / empty paths, a JSON file nested 200 000 deep, YAML behind a UTF-8 byte order mark, a file whose extension is a one-letter format alias, a procfs file (regular, reported size 0, not mappable, with content), file names that are not valid UTF-8 (existing and missing); the extension spelling 'yml' as an option value) plus {} random vectors of length 3-6 and every ordered pair of translatable inputs x every target; every vector of length 0..=1 and a sample of longer ones again with standard input an open directory (reads fail with EISDIR), with standard input a regular file at offset 0 or behind bytes already consumed, and with the process started under 6 other program names (argv[0] not valid UTF-8, empty, a path, with a space); each run with a pipe and (rotating) a file, a pseudo-terminal or /dev/full as stdout, stdin content rotating over translatable / malformed / empty; plus 10 multi-document streams (complete, or with a malformed / unrepresentable later document; up to 30 KiB) x named or detected source x 4 targets, trickling in on stdin in 2-4 bursts with pauses; distinct non-trivial = distinct argument vectors", exhaustive_len, v, n_random);
+    let rule = format!("EVERY argument vector of length 0..={} over a {}-token vocabulary (-f/-t with every name and alias in attached, detached and '=' forms, repeated, missing value, invalid name; unknown short/long options; -h --help -V --version and clustered/valued forms; '--'; '-'; translatable / malformed / undetectable / unrepresentable / missing / directory / empty paths, a JSON file nested 200 000 deep, YAML behind a UTF-8 byte order mark, a file whose extension is a one-letter format alias, a procfs file (regular, reported size 0, not mappable, with content), file names that are not valid UTF-8 (existing and missing); the extension spelling 'yml' as an option value) plus {} random vectors of length 3-6 and every ordered pair of translatable inputs x every target; every vector of length 0..=1 and a sample of longer ones again with standard input an open directory (reads fail with EISDIR), with standard input a regular file at offset 0 or behind bytes already consumed, and with the process started under 6 other program names (argv[0] not valid UTF-8, empty, a path, with a space); each run with a pipe and (rotating) a file, a pseudo-terminal or /dev/full as stdout, stdin content rotating over translatable / malformed / empty; plus 10 multi-document streams (complete, or with a malformed / unrepresentable later document; up to 30 KiB) x named or detected source x 4 targets, trickling in on stdin in 2-4 bursts with pauses; for nine hand-written files the outcome of translating them alone is pinned (exit 0) instead of computed with the library; distinct non-trivial = distinct argument vectors", exhaustive_len, v, n_random);
     let mut extra = serde_json::Map::new();
     extra.insert("argv_exhaustive_up_to_length".into(), json!(exhaustive_len));
     ev::finish(
-        Finish { ctx, level: "exploration", rule, assumptions: vec!["the harness runs as root, so an unreadable-file case cannot be produced (permission bits are ignored); missing files and directories stand in for open failures".into(), "argv is tokenised by the lexopt crate, the manual's rules are applied by the harness".into()], extra, exhaustive: false, min_distinct: 1000, must_reach: vec![("class_usage".into(), 500), ("class_help".into(), 200), ("class_run".into(), 500), ("run_expected_exit_0".into(), 100), ("run_expected_exit_1".into(), 100), ("msgpack_to_terminal_cases".into(), 10), ("stdout_pty".into(), 200), ("class_run_dev_full".into(), 50), ("stdin_delivered_in_bursts".into(), 200), ("runs_under_another_program_name".into(), 1000), ("stdin_is_a_directory".into(), 200), ("stdin_is_a_regular_file_at_a_later_offset".into(), 200)] },
+        Finish { ctx, level: "exploration", rule, assumptions: vec!["the harness runs as root, so an unreadable-file case cannot be produced (permission bits are ignored); missing files and directories stand in for open failures".into(), "argv is tokenised by the lexopt crate, the manual's rules are applied by the harness".into()], extra, exhaustive: false, min_distinct: 1000, must_reach: vec![("class_usage".into(), 500), ("class_help".into(), 200), ("class_run".into(), 500), ("run_expected_exit_0".into(), 100), ("run_expected_exit_1".into(), 100), ("msgpack_to_terminal_cases".into(), 10), ("stdout_pty".into(), 200), ("class_run_dev_full".into(), 50), ("stdin_delivered_in_bursts".into(), 200), ("runs_under_another_program_name".into(), 1000), ("stdin_is_a_directory".into(), 200), ("stdin_is_a_regular_file_at_a_later_offset".into(), 200), ("runs_with_a_pinned_outcome".into(), 50)] },
         acc,
     )
 }
